@@ -916,8 +916,9 @@ package lang
 //@   assert[C02] whole-root-otherwise: old(e.root.Value.Tag) != ValueArray ==> e.ruleRoot == e.root && arg1 == patternRules @ Evaluator.evalRules
 //@   loop 0 invariant protocol: e != nil && e.lexer != nil && frameOK(e.stackTop) && e.stackTop == old(e.stackTop) && !$faulted && e.root == old(e.root) && e.evalDepth == old(e.evalDepth)
 
-//@ func EvalExpression [C01,C11]
+//@ func EvalExpression [C01,C11,C14]
 //@   modifies valueHeap
+//@   ensures[C09,C14] a-selected-null-is-a-plain-null: err == nil && result0.Value.Tag == ValueNil ==> result0.Value.ParentObj == nil && fresh(result0)
 //@   requires !$faulted && isGoSrc(rootValue)
 //@   updates $faulted, $out
 //@   ensures[C01] errkind: err == nil || isSyn(err) || isRT(err) || err == errExit
